@@ -8,6 +8,7 @@ Tickets are abstract: sealed under a key name, carrying the server's session sta
 whether the bytes are still those the server issued (the MAC check of `decryptTicket`).
 Core Lean only; executable.
 -/
+import Gmsm.Model.Suites
 namespace Model.Resume
 
 inductive Mode | gm | tls
@@ -15,14 +16,14 @@ deriving DecidableEq, Repr
 
 abbrev Suite := Nat
 
-/-- GMSSL suite ids in the order of `getCipherSuites`' default list -/
-def gmAll : List Suite := [0xe013, 0xe053, 0xe011, 0xe051]
+/-- GMSSL suite ids in the order of `getCipherSuites`' default list (regenerated from the source) -/
+def gmAll : List Suite := Model.Suites.gmDefaultList
 /-- suites the GMSSL server can serve (`setCipherSuite` skips the ECDHE suites after the repair) -/
-def gmServable (s : Suite) : Bool := s == 0xe013 || s == 0xe053
-/-- the part of the TLS default list (`defaultCipherSuites`) usable with an RSA certificate that the
-    harness exercises, in the order of the real list -/
-def tlsDefaults : List Suite := [0xcca8, 0xc02f, 0x9c, 0x2f]
-def tlsServable (s : Suite) : Bool := tlsDefaults.contains s
+def gmServable (s : Suite) : Bool := Model.Suites.gmServable s
+/-- the TLS default list (`defaultCipherSuites`, regenerated from the source) -/
+def tlsDefaults : List Suite := Model.Suites.tlsDefaultList
+/-- what a TLS 1.2 server with an RSA certificate can serve -/
+def tlsServable (s : Suite) : Bool := Model.Suites.tlsServable .rsa 0x0303 s
 
 def vers : Mode → Nat | .gm => 0x0101 | .tls => 0x0303
 def servable : Mode → Suite → Bool | .gm => gmServable | .tls => tlsServable
@@ -75,8 +76,8 @@ def Cache.put (c : Cache) (cap k : Nat) (v : CSess) : Cache :=
 /-- ClientHello suites: `makeClientHelloGM` / `makeClientHello` keep the configured ids the mode implements -/
 def helloSuites (m : Mode) (cs : Option (List Suite)) : List Suite :=
   match m with
-  | .gm => (cs.getD gmAll).filter gmAll.contains
-  | .tls => (cs.getD tlsDefaults).filter tlsDefaults.contains
+  | .gm => (cs.getD gmAll).filter Model.Suites.isGM
+  | .tls => (cs.getD tlsDefaults).filter Model.Suites.isTLS
 
 /-- the list a full handshake selects from: `getCipherSuites(config)` (GMSSL) / `config.cipherSuites()` (TLS) -/
 def fullSupported (m : Mode) (s : Server) : List Suite :=
